@@ -71,6 +71,10 @@ CHECKS["C13"]=dict(level="exploration", ref="§C13",
    technique="finite product enumeration of save states x receiving states on the real save/load path, with a lock-step continuation against a pristine twin",
    text="Save states (two register patterns with all register bytes distinct, IM, IFF2, border, R and I boundary values, all 256 paging values on the 128K in thorough reached by CPU-executed OUTs, seven SP placements on the 48K incl. the ROM edge) are saved through save_snapshot and loaded into nine receivers (same machine now/1/1000 instructions later, fresh, halted, mid DD prefix, right after EI, paging locked elsewhere, everything different); registers, border, paging latch, lock and map, and every RAM bank are compared, then 24 instructions of an observer program run in lock step against a pristine twin; registers and all RAM of the saving machine are compared before/after the save.",
    note="Exploration level: RAM contents are position codes, register values two patterns plus boundary values. Not judged: IFF1, MEMPTR/Q, 48K PC with ROM below SP.")
+CHECKS["C14"]=dict(level="exploration", ref="§C14",
+   technique="finite product enumeration of abstract states x encodings x receivers x model pairing with spec-based writers; absolute and differential oracles",
+   text="Abstract machine states (registers, IM, I/R boundary values, border, six paging values incl. shadow screen and lock, position-coded RAM in all banks, two pictures, AY register file) are written by independent SNA/SZX/SCR writers in every equivalent encoding (SNA; SZX stored, zlib, six chunk orders, unknown chunks interleaved, v1.4/1.5) and loaded into six receivers (fresh, halted, mid prefix, paging locked, everything different, ROM running mid-frame); every item is compared with the abstract state (registers, IFFs, latches cleared, border, paging latch+lock+map, all RAM banks, AY registers read back through the ports, the picture after three frames), all encodings x receivers of a state must end in the same digest, plus audible AY state, HALTED in both PC conventions, EILAST, files of the other model, SCR into four receivers.",
+   note="Exploration level: states are a structured alphabet (6 quick / 30 thorough variants per machine). Writers follow the published layouts. Not judged: which HALTED PC convention a file uses; items a format does not carry.")
 NOT_YET = {
 }
 def main():
